@@ -168,8 +168,8 @@ class Ref:
         return self.first_after(i, lambda t: t[8] == s[8] - 1)
 
     def stack_dirty(self, i):
-        """the subroutine has pushed something that is still on the stack (used by the generator only, to stay away from
-        the listed class in endless programs; failures are classified by the extracted predicate, see classify())"""
+        """the subroutine has pushed something that is still on the stack (statistics only: stepOut from such a stop was
+        F-C19b; a failure there is classified by the extracted predicate, see classify())"""
         s = self.st(i)
         return s[9] is not None and s[4] != s[9]
 
@@ -455,6 +455,8 @@ class Session:
         self.stats["steps"] += 1
         if command == "stepOut":
             self.stats["stepouts"] += 1
+            if prev is not None and self.prog.ref.stack_dirty(prev):
+                self.stats["stepouts_dirty_stack"] = self.stats.get("stepouts_dirty_stack", 0) + 1
         self.trace.append((command,))
         n, _ = self.expect_stopped()
         if n == "terminated":
@@ -536,7 +538,7 @@ class Session:
                 s = prog.ref.st(self.cur)
                 if s[10] == JSR and k < 0.5:
                     self._do("stepIn" if k < 0.3 else "next")
-                elif s[8] > 0 and k < 0.35 and not prog.ref.stack_dirty(self.cur):
+                elif s[8] > 0 and k < 0.35:
                     self._do("stepOut")
                 elif k < 0.34:
                     self._do("continue")
@@ -547,9 +549,7 @@ class Session:
                     self._do("stepIn")
                 elif k < 0.70:
                     self._do("next")
-                elif k < 0.82 and s[8] > 0 and not prog.ref.stack_dirty(self.cur):
-                    # (with something pushed, stepOut is the listed class Known_stepout_stack_dirty: in an endless program the
-                    # adapter never answers; the class is exercised by the terminating witness corpus/C19/stepout_after_pha.asm)
+                elif k < 0.82 and s[8] > 0:
                     self._do("stepOut")
                 elif k < 0.92:
                     self._do("setBreakpoints", rng.sample(prog.code_lines, rng.randrange(0, 4)))
@@ -650,7 +650,7 @@ def trace_items(prog, log):
     return items, top
 
 
-def accept_trace(model, prog, log, protocol="StateHeld"):
+def accept_trace(model, prog, log, protocol="StateHeld", reset_lcp=True):
     """(accepted?, detail) -- None when the session is too long for the acceptor"""
     items, top = trace_items(prog, log)
     if top > ACCEPT_MAX_INDEX:
@@ -658,7 +658,7 @@ def accept_trace(model, prog, log, protocol="StateHeld"):
     ref = prog.ref
     ref.ensure(top + 600)
     st = ref.states[:top + 600]
-    r = model.call({"cmd": "accept", "protocol": protocol, "fuel": 100000, "items": items,
+    r = model.call({"cmd": "accept", "protocol": protocol, "reset_lcp": reset_lcp, "fuel": 100000, "items": items,
                     "pc": [t[0] for t in st], "sp": [t[4] for t in st], "op": [t[10] for t in st], "ret": [t[11] for t in st]}, timeout=120)
     if r.get("accepted") is True:
         return True, r
@@ -688,21 +688,21 @@ def corpus_sessions(mos, probe, rng, model=None):
                                              script=[("setBreakpoints", [9]), ("stepOut",)], model=model)))
     p2 = Program(SELF_LOOP, probe)
     out.append(("self_loop", Session(mos, p2, rng.randrange(1 << 30), rng.randrange(1 << 30), 1500, 0,
-                                     script=[("setBreakpoints", [5]), ("continue",), ("sleep", 200), ("pause",)], model=model)))
+                                     script=[("setBreakpoints", [5]), ("continue",), ("sleep", 200), ("pause",)] + [("continue",), ("wait",)] * 3, model=model)))
     out.append(("stepout_clean", Session(mos, p, rng.randrange(1 << 30), None, 0, 0,
                                          script=[("setBreakpoints", [8]), ("stepOut",)], model=model)))
     return out
 
 
 # ------------------------------------------------------------------------------------------------ run
-def absorb(chk, name, s, dist, distinct, model, protocol="StateHeld"):
+def absorb(chk, name, s, dist, distinct, model, protocol=("StateHeld", True)):
     for k, v in s.stats.items():
         dist[k] = dist.get(k, 0) + v
     # trace inclusion: the recorded trace must be a behaviour of the protocol model
     hard = [f for f in s.failures if f[0] in ("hang", "died", "error", "harness")]
     if hasattr(s, "log") and not hard:
         try:
-            ok, det = accept_trace(model, s.prog, s.log, protocol)
+            ok, det = accept_trace(model, s.prog, s.log, protocol[0], protocol[1])
         except ValueError as e:
             ok, det = False, {"why": str(e)}
         if ok is None:
@@ -732,7 +732,7 @@ def absorb(chk, name, s, dist, distinct, model, protocol="StateHeld"):
 def run(chk):
     rng = random.Random(chk.seed)
     tr = common.translate_for(chk, ["dap"])          # lock structure + event table -> Gen/DapShape.v (ShapeError = broken tie)
-    protocol = tr.get("dap", {}).get("protocol") or "StateHeld"
+    protocol = (tr.get("dap", {}).get("protocol") or "StateHeld", tr.get("dap", {}).get("reset_lcp", True))
     chk.proof = common.prove("C19")
     probe = Proc([common.build_probe()])
     model = Proc([common.build_model("c19")], timeout=180)
